@@ -688,7 +688,8 @@ def _lint(ctx, prop):
         sc1, nsc1 = lint.rule_SC1(ctx, files)
         pos1, npos1 = lint.rule_POS1(ctx, files)
         dz1, ndz1 = lint.rule_DZ1(ctx, files)
-        out += [sw, ov, n1, d3, cp, cp2, nb, zq, prt, tw, ang, one, aux1, swp, sc1, pos1, dz1]
+        dead1, ndead1 = lint.rule_DEAD1(ctx, files)
+        out += [sw, ov, n1, d3, cp, cp2, nb, zq, prt, tw, ang, one, aux1, swp, sc1, pos1, dz1, dead1]
     return out
 
 
